@@ -81,32 +81,33 @@ func vRunOnce(q string, s Storage, batch bool, n int) string {
 	return fmt.Sprintf("%v | %v", r.rows, r.err)
 }
 
-// vConcurrentRun: 8 goroutines, each with its own plan and context over one thread-safe
-// storage holding a private copy of the data per goroutine pair (mutating statements work on
-// their own copy so that results stay comparable); every result must equal the sequential one.
+// vConcurrentRun: 8 goroutines, each with its own plan and context over its own thread-safe
+// storage (a shared storage's mutex would order the goroutines and hide races on library
+// state from the race detector); all start together; every result must equal the sequential one.
 func vConcurrentRun(q string, st *vStore, n int) bool {
-	want := [2]string{vRunOnce(q, &vLockedStore{st: st.clone()}, false, n), vRunOnce(q, &vLockedStore{st: st.clone()}, true, n)}
 	var wg sync.WaitGroup
-	ok := true
-	var mu sync.Mutex
-	shared := &vLockedStore{st: st.clone()}
-	readOnly := len(q) > 0 && (q[0] == 's' || q[0] == 'S')
+	var results [8][]string
+	start := make(chan struct{})
 	for g := 0; g < 8; g++ {
 		wg.Add(1)
 		go func(g int) {
 			defer wg.Done()
-			var s Storage = shared
-			if !readOnly {
-				s = &vLockedStore{st: st.clone()}
-			}
-			got := vRunOnce(q, s, g%2 == 1, n)
-			if got != want[g%2] {
-				mu.Lock()
-				ok = false
-				mu.Unlock()
+			<-start
+			for it := 0; it < 20; it++ {
+				results[g] = append(results[g], vRunOnce(q, &vLockedStore{st: st.clone()}, g%2 == 1, n))
 			}
 		}(g)
 	}
+	close(start) // the concurrent phase comes first: nothing has warmed any library state yet
 	wg.Wait()
+	want := [2]string{vRunOnce(q, &vLockedStore{st: st.clone()}, false, n), vRunOnce(q, &vLockedStore{st: st.clone()}, true, n)}
+	ok := true
+	for g := range results {
+		for _, got := range results[g] {
+			if got != want[g%2] {
+				ok = false
+			}
+		}
+	}
 	return ok
 }
